@@ -220,14 +220,15 @@ pub fn def() -> PropDef {
     PropDef {
         id: "C20",
         run: |ctx| {
-            let types = vec![CType::Exact, CType::Restricted, CType::Relaxed];
+            // relaxed compilations (merged and deleted nodes) are the interesting ones: three in five
+            let types = vec![CType::Exact, CType::Restricted, CType::Relaxed, CType::Relaxed, CType::Relaxed];
             let dds = vec![DdKind::Lel, DdKind::Frontier, DdKind::Pooled];
             // node/arc faithfulness needs labels that identify nodes: depth-embedding states, no long arcs
-            let cases = ctx.tier.pick(1_500, 40_000);
+            let cases = ctx.tier.pick(4_000, 40_000);
             let p = GenParams { n: (1, 6), b: (1, 4), nd: (1, 3), embed: Some(true), allow_irrelevance: false, allow_potential: true };
             ctx.pt_run("faithful", cases, dd_case_strategy(p, types.clone(), dds.clone()), |c| serde_json::to_value(c).unwrap(), eval);
             // totality / syntax / terminal on everything else (depth-free states, long arcs)
-            let cases = ctx.tier.pick(800, 20_000);
+            let cases = ctx.tier.pick(1_500, 20_000);
             let p = GenParams { n: (1, 6), b: (1, 4), nd: (1, 3), embed: Some(false), allow_irrelevance: true, allow_potential: true };
             ctx.pt_run("total", cases, dd_case_strategy(p, types, dds), |c| serde_json::to_value(c).unwrap(), eval);
         },
